@@ -173,6 +173,11 @@ type embargo struct {
 	c      *capnp.Client
 	p      *capnp.ClientPromise
 	lifted chan struct{}
+
+	// liftRef is a second reference to c, used to resolve p.  c itself
+	// is released by Shutdown, which happens before lift if the
+	// embargoed client runs out of references first.
+	liftRef *capnp.Client
 }
 
 // embargo creates a new embargoed client, stealing the reference.
@@ -181,8 +186,9 @@ type embargo struct {
 func (c *Conn) embargo(client *capnp.Client) (embargoID, *capnp.Client) {
 	id := embargoID(c.embargoID.next())
 	e := &embargo{
-		c:      client,
-		lifted: make(chan struct{}),
+		c:       client,
+		lifted:  make(chan struct{}),
+		liftRef: client.AddRef(),
 	}
 	if int64(id) == int64(len(c.embargoes)) {
 		c.embargoes = append(c.embargoes, e)
@@ -206,7 +212,8 @@ func (c *Conn) findEmbargo(id embargoID) *embargo {
 // lift disembargoes the client.  It must be called only once.
 func (e *embargo) lift() {
 	close(e.lifted)
-	e.p.Fulfill(e.c)
+	e.p.Fulfill(e.liftRef)
+	e.liftRef.Release()
 }
 
 func (e *embargo) Send(ctx context.Context, s capnp.Send) (*capnp.Answer, capnp.ReleaseFunc) {
